@@ -2,6 +2,7 @@ package main
 
 import (
 	"context"
+	"crypto/tls"
 	"encoding/binary"
 	"encoding/json"
 	"errors"
@@ -9,6 +10,8 @@ import (
 	"fmt"
 	"io"
 	"net"
+	"os"
+	"path/filepath"
 	"runtime/debug"
 	"strings"
 	"sync"
@@ -36,6 +39,33 @@ type proxyScen struct {
 	// FailPeer: the upstream selected first has a second peer that refuses connections; the handler retries and a
 	// second upstream serves the connection. The abandoned connection to the first peer is observed too (ups[0]).
 	FailPeer bool `json:"failpeer"`
+	// Transport "tcp" (default): loopback TCP on both sides; "unix": Unix stream sockets on both sides; "tls": the
+	// client speaks TLS, terminated by the real tls handler in front of the proxy handler, and the proxy handler
+	// speaks TLS to its upstreams (half-close = close_notify)
+	Transport string `json:"transport"`
+}
+
+type halfCloser interface{ CloseWrite() error }
+
+func closeWrite(c net.Conn) {
+	if h, ok := c.(halfCloser); ok {
+		h.CloseWrite()
+	}
+}
+
+func harnessTLSConfig() (*tls.Config, error) {
+	if _, err := vh.CaddyContext(); err != nil {
+		return nil, err
+	}
+	cert, err := tls.X509KeyPair([]byte(vh.CertPEM), []byte(vh.KeyPEM))
+	if err != nil {
+		return nil, err
+	}
+	return &tls.Config{Certificates: []tls.Certificate{cert}}, nil
+}
+
+func unixPath(idx int, name string) string {
+	return filepath.Join(os.TempDir(), fmt.Sprintf("vp%d-%d-%s.sock", os.Getpid(), idx, name))
 }
 
 type upObs struct {
@@ -141,14 +171,34 @@ func runProxy(sc proxyScen, idx int) (*proxyTrace, error) {
 	var waited atomic.Value
 	waited.Store("")
 	for u := 0; u < sc.Peers; u++ {
-		ln, err := net.Listen("tcp", "127.0.0.1:0")
+		var ln net.Listener
+		var err error
+		dialAddr := ""
+		switch sc.Transport {
+		case "unix":
+			path := unixPath(idx, fmt.Sprintf("u%d", u))
+			os.Remove(path)
+			ln, err = net.Listen("unix", path)
+			dialAddr = "unix/" + path
+			defer os.Remove(path)
+		case "tls":
+			var cfg *tls.Config
+			if cfg, err = harnessTLSConfig(); err == nil {
+				ln, err = tls.Listen("tcp", "127.0.0.1:0", cfg)
+			}
+		default:
+			ln, err = net.Listen("tcp", "127.0.0.1:0")
+		}
 		if err != nil {
 			return nil, err
+		}
+		if dialAddr == "" {
+			dialAddr = ln.Addr().String()
 		}
 		defer ln.Close()
 		s := &upSrv{ln: ln, obs: &upObs{End: uend, RecvIntact: true}, done: make(chan struct{}), eofSeen: make(chan struct{}), finished: make(chan struct{})}
 		ups = append(ups, s)
-		dials = append(dials, ln.Addr().String())
+		dials = append(dials, dialAddr)
 		go func(u int, s *upSrv) {
 			defer close(s.done)
 			c, err := ln.Accept()
@@ -207,7 +257,7 @@ func runProxy(sc proxyScen, idx int) (*proxyTrace, error) {
 			}
 			close(s.finished)
 			if uend == "fin" {
-				c.(*net.TCPConn).CloseWrite()
+				closeWrite(c)
 				wg.Wait() // keep reading until the proxy closes our connection
 			} else {
 				// "close": wait for the end of the client's stream unless the client never ends it
@@ -227,6 +277,9 @@ func runProxy(sc proxyScen, idx int) (*proxyTrace, error) {
 	ctx, cancel := caddy.NewContext(caddy.Context{Context: context.Background()})
 	defer cancel()
 	upstreams := []map[string]any{{"dial": dials}}
+	if sc.Transport == "tls" {
+		upstreams[0]["tls"] = map[string]any{"insecure_skip_verify": true}
+	}
 	hcfg := map[string]any{"upstreams": upstreams}
 	var abandoned *upObs
 	var abandonedAccepted atomic.Bool
@@ -275,7 +328,7 @@ func runProxy(sc proxyScen, idx int) (*proxyTrace, error) {
 	}
 	var h *l4proxy.Handler
 	var compiled layer4.Handler
-	if sc.Via == "route" || sc.Via == "route2" || sc.Via == "throttle" || sc.Via == "pp" {
+	if sc.Via == "route" || sc.Via == "route2" || sc.Via == "throttle" || sc.Via == "pp" || sc.Transport == "tls" {
 		hj := map[string]any{"handler": "proxy"}
 		for k, v := range hcfg {
 			hj[k] = v
@@ -284,6 +337,10 @@ func runProxy(sc proxyScen, idx int) (*proxyTrace, error) {
 		if sc.Via == "throttle" {
 			// the shipped throttle handler without limits in front: the proxy's downstream is a wrapped connection
 			routes = []map[string]any{{"handle": []map[string]any{{"handler": "throttle"}, hj}}}
+		}
+		if sc.Transport == "tls" {
+			// the real tls handler terminates the client's TLS; the next route (no matchers) relays the plaintext
+			routes = []map[string]any{{"match": []map[string]any{{"tls": map[string]any{}}}, "handle": []map[string]any{{"handler": "tls"}}}, {"handle": []map[string]any{hj}}}
 		}
 		if sc.Via == "pp" {
 			// the shipped proxy_protocol handler in front: it consumes the header the client sends first and wraps the connection
@@ -322,15 +379,25 @@ func runProxy(sc proxyScen, idx int) (*proxyTrace, error) {
 		defer h.Cleanup()
 	}
 
-	// downstream: real loopback TCP
-	dln, err := net.Listen("tcp", "127.0.0.1:0")
+	// downstream: real loopback TCP (or a Unix stream socket)
+	dnet, daddr := "tcp", "127.0.0.1:0"
+	if sc.Transport == "unix" {
+		dnet, daddr = "unix", unixPath(idx, "d")
+		os.Remove(daddr)
+		defer os.Remove(daddr)
+	}
+	dln, err := net.Listen(dnet, daddr)
 	if err != nil {
 		return nil, err
 	}
 	defer dln.Close()
-	cc, err := net.Dial("tcp", dln.Addr().String())
+	rawcc, err := net.Dial(dnet, dln.Addr().String())
 	if err != nil {
 		return nil, err
+	}
+	cc := rawcc
+	if sc.Transport == "tls" {
+		cc = tls.Client(rawcc, &tls.Config{ServerName: "verif.test", InsecureSkipVerify: true})
 	}
 	sconn, err := dln.Accept()
 	if err != nil {
@@ -412,6 +479,10 @@ func runProxy(sc proxyScen, idx int) (*proxyTrace, error) {
 	go func() {
 		defer close(writerDone)
 		rest := cstream[pre:]
+		if tc, ok := cc.(*tls.Conn); ok {
+			// (a CloseWrite before the handshake is complete would be refused by crypto/tls)
+			tc.Handshake()
+		}
 		if sc.Via == "pp" {
 			// not part of the client's stream: the proxy_protocol handler strips it
 			cc.Write([]byte("PROXY TCP4 203.0.113.7 198.51.100.9 40000 443\r\n"))
@@ -441,7 +512,7 @@ func runProxy(sc proxyScen, idx int) (*proxyTrace, error) {
 				waited.Store("timeout")
 			}
 			writeChunksCount(cc, rest, sc.Chunk, &csent)
-			cc.(*net.TCPConn).CloseWrite()
+			closeWrite(cc)
 		case "client_rst":
 			writeChunksCount(cc, rest[:len(rest)/2], sc.Chunk, &csent)
 			time.Sleep(20 * time.Millisecond)
@@ -452,7 +523,7 @@ func runProxy(sc proxyScen, idx int) (*proxyTrace, error) {
 			cc.Close()
 		default:
 			writeChunksCount(cc, rest, sc.Chunk, &csent)
-			cc.(*net.TCPConn).CloseWrite()
+			closeWrite(cc)
 		}
 	}()
 
